@@ -167,7 +167,7 @@ def max_element(input_array: Array) -> np.number | Array:
 
 def max_abs_element(input_array: Array) -> np.number | Array:
     """Return an array of shape `input_array.shape[1:]` with the maximum absolute entries of the given array."""
-    return max_element(np.abs(input_array))
+    return max_element(abs_array(input_array))
 
 
 def max_value(input_array: Array) -> float:
@@ -203,7 +203,8 @@ def rel_diff(first: Array, second: Array) -> Array:
 
 def abs_array(input_array: Array) -> Array:
     """Return an array containing the absolute values of the given array"""
-    return np.abs(input_array)
+    # the absolute value of the most negative integer is not representable in its own type
+    return np.abs(_integers_as_floats(input_array))
 
 
 def abs_diff(first: Array, second: Array) -> Array:
